@@ -43,6 +43,15 @@ def run(ctx):
         "made on must still be an event of the same identity; every third behaviour is repeated on a fresh event without "
         "reading any accessor between the calls (cold caches); IRoomVersion.NewEventBuilder() filled by hand must build the "
         "same event as NewEventBuilderFromProtoEvent",
+        "signer identities: the server name and the key ID of every signer (Build's, Sign's) are spelt in every class of the "
+        "Matrix grammar - server name as DNS name / with port / IPv4 literal / bracketed IPv6 literal (each with and without "
+        "port) / a single label with a hyphen / 207 characters; key ID ed25519:<version> with the version alphanumeric / with an "
+        "underscore inside (the form Synapse generates) / with a leading underscore / digits only / upper case / 128 characters: "
+        "family sid enumerates them with every room version and every pair of {three parse paths, Sign by the same server with "
+        "another key, Sign by another server, Redact}; all other families rotate the spellings over their scenarios (pseudo-ID "
+        "room versions: the identity is the sender key under the MSC's fixed key ID); only the signer is respelt - sender, room "
+        "and state keys keep the plain server name; a failure that disappears under the plainly spelt identity is keyed by the "
+        "spelling class it needs",
         "numbers that are not canonical integers (1.5, 1e3, 1E2, +-2^53, -0, 2.0, a fraction nested in an array) appear "
         "only in the `num` family, as one content value: in room versions 6+ the specification has Build refuse the "
         "proto-event (a refusal is accepted; an event handed out instead must satisfy every clause, i.e. re-parse on "
@@ -54,10 +63,10 @@ def run(ctx):
     ctx.notes["rule"] = (
         "every behaviour of EventIdentity.tla: 16 room versions x 12 event shapes (+2 m.room.create-typed non-create events in domainless versions; 7 protected types, message, empty "
         "content, custom state, member with restricted-join / third-party-invite content, member with kept keys only) x "
-        "prev/auth/depth/unsigned variants x (%s) and x 17 sibling fields after 0/1 operation; family num: 16 room versions x %s shapes x 11 number classes in the content x behaviours of length %s; distinct = distinct "
+        "prev/auth/depth/unsigned variants x (%s) and x 17 sibling fields after 0/1 operation; family num: 16 room versions x %s shapes x 11 number classes in the content x behaviours of length %s; family sid: 16 room versions x %s signer-identity spellings (of 8 server-name x 6 key-ID classes) x behaviours of length 2 over 6 operations; distinct = distinct "
         "(family, ID format, redaction algorithm, domainless, type, operation sequence, redacted pattern, sibling field, "
-        "number class)" % ((ops,) + (("3", "2") if ctx.tier == "quick" else ("6", "3"))))
-    fams = ["ops", "opsb", "num", "len", "sib"] if ctx.tier == "quick" else ["ops", "ops2", "num", "len", "sib"]
+        "number class, signer spelling in family sid)" % ((ops,) + (("3", "2", "15") if ctx.tier == "quick" else ("6", "3", "all 48"))))
+    fams = ["ops", "opsb", "num", "len", "sid", "sib"] if ctx.tier == "quick" else ["ops", "ops2", "num", "len", "sid", "sib"]
     ctx.notes["constants"] = ", ".join("EventIdentity_gen_%s_%s.cfg" % (f, ctx.tier) for f in fams)
     for fam in fams:
         r = ctx.tlc("EventIdentity_gen", "EventIdentity_gen_%s_%s.cfg" % (fam, ctx.tier), timeout=2400)
